@@ -406,6 +406,9 @@ class Dimension:
 
     def scale(self, zero: "Quantity", name: str, symbol: str) -> "Unit":
         """Define a new scale of this dimension, setting a zero point of another unit"""
+        if not isinstance(zero, Quantity):
+            raise TypeError(f"zero should be a Quantity, not {type(zero)}")
+
         unit = self.unit(name, symbol)
         conversions.translate(unit, zero)
         return unit
